@@ -612,6 +612,9 @@ func rawSignatureData(rrset []RR, s *RRSIG) (buf []byte, err error) {
 		if len(labels) > int(s.Labels) {
 			// Wildcard
 			h.Name = "*." + strings.Join(labels[len(labels)-int(s.Labels):], ".") + "."
+			if s.Labels == 0 {
+				h.Name = "*." // a wildcard directly below the root
+			}
 		}
 		// RFC 4034: 6.2.  Canonical RR Form. (2) - domain name to lowercase
 		h.Name = CanonicalName(h.Name)
